@@ -35,16 +35,28 @@ func makeLocationPath(loc *Location, ingressAnnotations map[string]string) strin
 			return makePathWithRegex(loc.Path, regexType)
 		}
 		if isMergeable && ingressType == "minion" && !hasRegex {
-			return loc.Path
+			return quotePathWithCurlyBraces(loc.Path)
 		}
 	}
 
 	// Case when annotation 'path-regex' set on Ingress (including Master).
 	regexType, ok := ingressAnnotations["nginx.org/path-regex"]
 	if !ok {
-		return loc.Path
+		return quotePathWithCurlyBraces(loc.Path)
 	}
 	return makePathWithRegex(loc.Path, regexType)
+}
+
+// quotePathWithCurlyBraces puts a location path that contains a curly brace between double quotes:
+// NGINX reads an unquoted '{' as the start of the location block.
+func quotePathWithCurlyBraces(path string) string {
+	if !strings.ContainsAny(path, "{}") {
+		return path
+	}
+	if exact := strings.TrimPrefix(path, "= "); exact != path {
+		return fmt.Sprintf("= \"%s\"", exact)
+	}
+	return fmt.Sprintf("\"%s\"", path)
 }
 
 // makePathWithRegex takes a path representing a location and a regexType
